@@ -203,13 +203,13 @@ Qed.
 
 Theorem count_correct : agg_correct Count (fun l o => o = scr_count l).
 Proof.
-  intros h l _ R _. simpl. rewrite run_count, (hsum_represents _ h l const_one_inv R), lsum_one. reflexivity.
+  intros h l R _. simpl. rewrite run_count, (hsum_represents _ h l const_one_inv R), lsum_one. reflexivity.
 Qed.
 
 Theorem sum64_correct f mk : class_inv f ->
   agg_correct (SumG add64 sub64 0 f mk) (fun l o => o = scr_sum f mk l).
 Proof.
-  intros F h l _ R _. simpl. rewrite run_sum64, (hsum_represents f h l F R). reflexivity.
+  intros F h l R _. simpl. rewrite run_sum64, (hsum_represents f h l F R). reflexivity.
 Qed.
 
 Lemma zlen_pos l : l <> [] -> 1 <= zlen l.
@@ -218,7 +218,7 @@ Proof. destruct l; [congruence|]. intros _. unfold zlen. simpl length. lia. Qed.
 Theorem avg64_correct f mk : class_inv f ->
   agg_correct (AvgG add64 sub64 0 f (div64 mk)) (fun l o => zlen l < two63 -> o = scr_avg f mk l).
 Proof.
-  intros F h l _ R NE B. simpl. rewrite run_avg64. simpl.
+  intros F h l R NE B. simpl. rewrite run_avg64. simpl.
   rewrite (hsum_represents f h l F R), (hsum_represents _ h l const_one_inv R), lsum_one.
   pose proof (zlen_pos l NE) as P.
   rewrite (wrap64_small (zlen l)) by (unfold in_int64, two63 in *; lia).
@@ -230,7 +230,7 @@ Qed.
 Theorem sum_exact_correct f : class_inv f ->
   agg_correct (SumExact f) (fun l o => o = Ok (VInt (lsum f l))).
 Proof.
-  intros F h l _ R _. simpl. rewrite run_sum_exact, (hsum_represents f h l F R). reflexivity.
+  intros F h l R _. simpl. rewrite run_sum_exact, (hsum_represents f h l F R). reflexivity.
 Qed.
 
 
@@ -341,14 +341,15 @@ Proof.
   destruct (IH ltac:(lia)) as [k' [c' [I E']]]. exists k', c'. auto.
 Qed.
 
-Lemma valid_net_nonneg h v : valid_hist h -> 0 <= net h v.
-Proof. intro V. apply (V h []). rewrite app_nil_r. reflexivity. Qed.
+Lemma represents_nonneg l h v : represents l h -> 0 <= net h v.
+Proof. intro R. rewrite <- (R v). apply ccount_nonneg. Qed.
 
-Lemma trun_positive h : valid_hist h -> Forall (fun e => 0 < snd e) (trun h).
+(* when no class is negative, every stored count is positive (negative counts of early retractions are gone) *)
+Lemma trun_positive h l : represents l h -> Forall (fun e => 0 < snd e) (trun h).
 Proof.
-  intro V. destruct (trun_inv h) as [S N]. rewrite Forall_forall in *. intros [k c] I. simpl.
+  intro R. destruct (trun_inv h) as [S N]. rewrite Forall_forall in *. intros [k c] I. simpl.
   pose proof (tsorted_unique _ S k c I) as U. rewrite tcount_trun in U.
-  pose proof (valid_net_nonneg h k V). specialize (N (k, c) I). simpl in N. lia.
+  pose proof (represents_nonneg l h k R). specialize (N (k, c) I). simpl in N. lia.
 Qed.
 
 (* every member of a representing list has its class stored in the tree *)
@@ -357,25 +358,25 @@ Proof.
   intros R I. apply tcount_nonzero_ex. rewrite tcount_trun, <- (R x). pose proof (ccount_in l x I). lia.
 Qed.
 (* every stored key with a positive count has a member of its class in the list *)
-Lemma trun_key_in_list h l k c : valid_hist h -> represents l h -> In (k, c) (trun h) ->
+Lemma trun_key_in_list h l k c : represents l h -> In (k, c) (trun h) ->
   exists x, In x l /\ veq k x = true.
 Proof.
-  intros V R I. destruct (trun_inv h) as [S _].
+  intros R I. destruct (trun_inv h) as [S _].
   pose proof (tsorted_unique _ S k c I) as U. rewrite tcount_trun, <- (R k) in U.
-  pose proof (trun_positive h V) as P. rewrite Forall_forall in P. specialize (P _ I). simpl in P.
+  pose proof (trun_positive h l R) as P. rewrite Forall_forall in P. specialize (P _ I). simpl in P.
   destruct (ccount_pos_ex l k ltac:(lia)) as [x [Hx E]]. exists x. split; [exact Hx | rewrite veq_sym; exact E].
 Qed.
 
 (* ---- min.go ---- *)
 Theorem min_correct : agg_correct Min (fun l o => exists m, o = Ok m /\ is_least m l = true).
 Proof.
-  intros h l V R NE. change (run Min h) with (trun h). simpl.
+  intros h l R NE. change (run Min h) with (trun h). simpl.
   destruct (trun_inv h) as [S _].
   destruct (trun h) as [|[k0 c0] rest] eqn:T.
   - destruct l as [|x l']; [congruence|].
     destruct (trun_has_class h (x :: l') x R (or_introl eq_refl)) as [k [c [I _]]]. rewrite T in I. contradiction.
   - exists k0. split; [reflexivity|]. unfold is_least. apply andb_true_intro. split.
-    + destruct (trun_key_in_list h l k0 c0 V R) as [x [Hx E]]; [rewrite T; left; reflexivity|].
+    + destruct (trun_key_in_list h l k0 c0 R) as [x [Hx E]]; [rewrite T; left; reflexivity|].
       apply existsb_exists. exists x. auto.
     + apply forallb_forall. intros x Hx. apply Z.leb_le.
       destruct (trun_has_class h l x R Hx) as [k [c [I E]]]. rewrite T in I.
@@ -407,12 +408,12 @@ Qed.
 
 Theorem max_correct : agg_correct Max (fun l o => exists m, o = Ok m /\ is_greatest m l = true).
 Proof.
-  intros h l V R NE. change (run Max h) with (trun h). simpl.
+  intros h l R NE. change (run Max h) with (trun h). simpl.
   destruct (trun_inv h) as [S _].
   destruct (last_key (trun h)) as [km|] eqn:L.
   - destruct (last_key_spec _ S km L) as [[cm Im] A].
     exists km. split; [reflexivity|]. unfold is_greatest. apply andb_true_intro. split.
-    + destruct (trun_key_in_list h l km cm V R Im) as [x [Hx E]]. apply existsb_exists. exists x. auto.
+    + destruct (trun_key_in_list h l km cm R Im) as [x [Hx E]]. apply existsb_exists. exists x. auto.
     + apply forallb_forall. intros x Hx. apply Z.leb_le.
       destruct (trun_has_class h l x R Hx) as [k [c [I E]]].
       unfold veq in E. apply Z.eqb_eq in E. rewrite <- (vcompare_eq_cong k x km E).
@@ -476,12 +477,12 @@ Qed.
 Theorem array_correct :
   agg_correct Array (fun l o => exists e, o = Ok (VList e) /\ is_sorted_expansion e l = true).
 Proof.
-  intros h l V R _. change (run Array h) with (trun h). simpl.
+  intros h l R _. change (run Array h) with (trun h). simpl.
   exists (expand (trun h)). split; [reflexivity|]. destruct (trun_inv h) as [S _].
   unfold is_sorted_expansion. apply andb_true_intro. split.
   - apply ss_sortedb, expand_sorted, S.
   - apply forallb_forall. intros v _. apply Z.eqb_eq.
-    rewrite (ccount_expand _ v (trun_positive h V)), tcount_trun. symmetry. apply R.
+    rewrite (ccount_expand _ v (trun_positive h l R)), tcount_trun. symmetry. apply R.
 Qed.
 
 (* what the executable predicates mean *)
@@ -521,41 +522,24 @@ Proof.
   unfold vhash. rewrite (vcompare_enc k v E). apply Z.eqb_refl.
 Qed.
 
-Definition getd (m : list (value * Z)) (v : value) : Z := match hm_get m v with Some c => c | None => 0 end.
 Definition supp (n : Z) : Z := if 0 <? n then 1 else 0.
 
-Lemma tcount_hm_set m v c x :
-  tcount (hm_set m v c) x = tcount m x + (if veq v x then c - getd m v else 0).
+Lemma tcount_dist_entry g k c1 r v rest x :
+  tcount (fst (dist_entry g k c1 r v rest)) x = (if veq k x then c1 else 0) + tcount rest x.
 Proof.
-  unfold getd. induction m as [|[k c0] rest IH]; simpl; [destruct (veq v x); lia|].
-  rewrite hm_same_veq. destruct (veq k v) eqn:E; simpl.
-  - rewrite <- (veq_cong k v x E). destruct (veq k x); lia.
-  - rewrite IH. lia.
-Qed.
-Lemma tcount_hm_remove m v x :
-  tcount (hm_remove m v) x = tcount m x - (if veq v x then getd m v else 0).
-Proof.
-  unfold getd. induction m as [|[k c0] rest IH]; simpl; [destruct (veq v x); lia|].
-  rewrite hm_same_veq. destruct (veq k v) eqn:E; simpl.
-  - rewrite <- (veq_cong k v x E). destruct (veq k x); lia.
-  - rewrite IH. lia.
-Qed.
-Lemma getd_hm_set m v c : getd (hm_set m v c) v = c.
-Proof.
-  unfold getd. induction m as [|[k c0] rest IH]; simpl.
-  - rewrite hm_same_veq, veq_refl. reflexivity.
-  - rewrite hm_same_veq. destruct (veq k v) eqn:E; simpl; rewrite hm_same_veq, E; [reflexivity | exact IH].
+  unfold dist_entry. destruct ((c1 =? 1) && negb r); simpl; [reflexivity|].
+  destruct (Z.eqb_spec c1 0); simpl; [subst; destruct (veq k x); lia | reflexivity].
 Qed.
 
-Lemma tcount_dist_step m r v x :
-  tcount (fst (dist_step m r v)) x = tcount m x + (if veq v x then delta r else 0).
+(* the map counts every class with its signed multiplicity — for the code before and after the fix *)
+Lemma tcount_dist_upd g m r v x :
+  tcount (fst (dist_upd g m r v)) x = tcount m x + (if veq v x then delta r else 0).
 Proof.
-  unfold dist_step. fold (getd m v).
-  destruct ((getd m v + delta r =? 1) && negb r); simpl.
-  - rewrite tcount_hm_set. destruct (veq v x); lia.
-  - destruct (Z.eqb_spec (getd m v + delta r) 0) as [E|N]; simpl.
-    + rewrite tcount_hm_remove, tcount_hm_set, getd_hm_set. destruct (veq v x); lia.
-    + rewrite tcount_hm_set. destruct (veq v x); lia.
+  induction m as [|[k c] rest IH]; simpl.
+  - rewrite tcount_dist_entry. simpl. destruct (veq v x); lia.
+  - rewrite hm_same_veq. destruct (veq k v) eqn:E.
+    + rewrite tcount_dist_entry, <- (veq_cong k v x E). destruct (veq k x); lia.
+    + destruct (dist_upd g rest r v) as [rest' fw]. simpl in *. rewrite IH. lia.
 Qed.
 
 (* at most one entry per class *)
@@ -565,42 +549,59 @@ Fixpoint huniq (m : list (value * Z)) : Prop :=
   | (k, _) :: rest => Forall (fun e => veq k (fst e) = false) rest /\ huniq rest
   end.
 
-Lemma hm_set_forall (Q : value -> Prop) m v c :
-  Forall (fun e => Q (fst e)) m -> Q v -> Forall (fun e => Q (fst e)) (hm_set m v c).
+Lemma dist_entry_forall g (Q : value -> Prop) k c1 r v rest :
+  Q k -> Forall (fun e => Q (fst e)) rest -> Forall (fun e => Q (fst e)) (fst (dist_entry g k c1 r v rest)).
 Proof.
-  induction m as [|[k c0] rest IH]; intros F Hv; simpl; [repeat constructor; exact Hv|].
-  inversion F; subst. destruct (hm_same k v); constructor; auto.
+  intros Hk F. unfold dist_entry. destruct ((c1 =? 1) && negb r); simpl; [constructor; assumption|].
+  destruct (c1 =? 0); simpl; [assumption | constructor; assumption].
 Qed.
-Lemma hm_remove_forall (Q : value * Z -> Prop) m v : Forall Q m -> Forall Q (hm_remove m v).
+Lemma dist_upd_forall g (Q : value -> Prop) m r v :
+  Forall (fun e => Q (fst e)) m -> Q v -> Forall (fun e => Q (fst e)) (fst (dist_upd g m r v)).
 Proof.
-  induction m as [|[k c0] rest IH]; intro F; simpl; [constructor|].
-  inversion F; subst. destruct (hm_same k v); [assumption | constructor; auto].
+  induction m as [|[k c] rest IH]; intros F Hv; simpl; [apply dist_entry_forall; [exact Hv | constructor]|].
+  inversion F as [|? ? Hk Hrest]; subst. simpl in Hk.
+  destruct (hm_same k v); [apply dist_entry_forall; assumption|].
+  specialize (IH Hrest Hv). destruct (dist_upd g rest r v) as [rest' fw]. simpl in *. constructor; assumption.
 Qed.
-Lemma hm_set_uniq m v c : huniq m -> huniq (hm_set m v c).
+Lemma dist_entry_uniq g k c1 r v rest :
+  Forall (fun e => veq k (fst e) = false) rest -> huniq rest -> huniq (fst (dist_entry g k c1 r v rest)).
 Proof.
-  induction m as [|[k c0] rest IH]; intro U; simpl; [split; constructor|].
-  destruct U as [F U]. rewrite hm_same_veq. destruct (veq k v) eqn:E; simpl; [split; assumption|].
-  split; [|apply IH; exact U]. apply (hm_set_forall (fun y => veq k y = false)); assumption.
+  intros F U. unfold dist_entry. destruct ((c1 =? 1) && negb r); simpl; [split; assumption|].
+  destruct (c1 =? 0); simpl; [assumption | split; assumption].
 Qed.
-Lemma hm_remove_uniq m v : huniq m -> huniq (hm_remove m v).
+Lemma dist_upd_uniq g m r v : huniq m -> huniq (fst (dist_upd g m r v)).
 Proof.
-  induction m as [|[k c0] rest IH]; intro U; simpl; [exact I|].
-  destruct U as [F U]. destruct (hm_same k v); [exact U|]. simpl. split; [apply hm_remove_forall; exact F | apply IH; exact U].
-Qed.
-Lemma dist_step_uniq m r v : huniq m -> huniq (fst (dist_step m r v)).
-Proof.
-  intro U. unfold dist_step.
-  destruct ((_ =? 1) && negb r); simpl; [apply hm_set_uniq; exact U|].
-  destruct (_ =? 0); simpl; [apply hm_remove_uniq|]; apply hm_set_uniq; exact U.
+  induction m as [|[k c] rest IH]; intro U; simpl; [apply dist_entry_uniq; [constructor | exact I]|].
+  destruct U as [F U]. rewrite hm_same_veq. destruct (veq k v) eqn:E; [apply dist_entry_uniq; assumption|].
+  pose proof (dist_upd_forall g (fun y => veq k y = false) rest r v F E) as F'. specialize (IH U).
+  destruct (dist_upd g rest r v) as [rest' fw]. simpl in *. split; assumption.
 Qed.
 
-Lemma getd_tcount m v : huniq m -> getd m v = tcount m v.
+Lemma uniq_tcount_head k c rest v : Forall (fun e => veq k (fst e) = false) rest -> veq k v = true ->
+  tcount ((k, c) :: rest) v = c.
 Proof.
-  unfold getd. induction m as [|[k c] rest IH]; intro U; simpl; [reflexivity|].
+  intros F E. simpl. rewrite E, tcount_zero; [lia|]. eapply Forall_impl; [|exact F]. intros e He. simpl in He.
+  rewrite veq_sym, <- (veq_cong k v (fst e) E). exact He.
+Qed.
+
+(* what the fixed code forwards, in terms of the class multiplicity after the Add *)
+Definition fw_spec (c1 : Z) (r : bool) (v : value) : option (bool * value) :=
+  if (c1 =? 1) && negb r then Some (false, v) else if (c1 =? 0) && r then Some (true, v) else None.
+(* ... and the code before the fix *)
+Definition fw_spec_pinned (c1 : Z) (r : bool) (v : value) : option (bool * value) :=
+  if (c1 =? 1) && negb r then Some (false, v) else if c1 =? 0 then Some (true, v) else None.
+
+Lemma dist_entry_fw k c1 r v rest : snd (dist_entry true k c1 r v rest) = fw_spec c1 r v.
+Proof.
+  unfold dist_entry, fw_spec. destruct ((c1 =? 1) && negb r); [reflexivity|].
+  destruct (c1 =? 0), r; reflexivity.
+Qed.
+Lemma dist_upd_fw m r v : huniq m -> snd (dist_upd true m r v) = fw_spec (tcount m v + delta r) r v.
+Proof.
+  induction m as [|[k c] rest IH]; intro U; simpl dist_upd; [rewrite dist_entry_fw; reflexivity|].
   destruct U as [F U]. rewrite hm_same_veq. destruct (veq k v) eqn:E.
-  - rewrite tcount_zero; [lia|]. eapply Forall_impl; [|exact F]. intros e He. simpl in He.
-    rewrite veq_sym, <- (veq_cong k v (fst e) E). exact He.
-  - rewrite (IH U). lia.
+  - rewrite dist_entry_fw, (uniq_tcount_head k c rest v F E). reflexivity.
+  - specialize (IH U). destruct (dist_upd true rest r v) as [rest' fw]. simpl in *. rewrite E, IH. reflexivity.
 Qed.
 
 (* the map and the history forwarded to the wrapped aggregate *)
@@ -616,8 +617,8 @@ Proof. unfold dstate. rewrite fold_left_app. reflexivity. Qed.
 Lemma run_distinct W h : run (Distinct W) h = (fst (dstate h), run W (dhist h)).
 Proof.
   unfold dhist. induction h as [|[r v] h IH] using rev_ind; [reflexivity|].
-  rewrite run_snoc, dstate_snoc, IH. unfold dacc. simpl.
-  destruct (dist_step (fst (dstate h)) r v) as [m' [x|]]; simpl.
+  rewrite run_snoc, dstate_snoc, IH. unfold dacc, dist_step. simpl.
+  destruct (dist_upd true (fst (dstate h)) r v) as [m' [x|]]; simpl.
   - rewrite run_snoc. reflexivity.
   - rewrite app_nil_r. reflexivity.
 Qed.
@@ -625,82 +626,48 @@ Qed.
 Lemma dstate_inv h : (forall x, tcount (fst (dstate h)) x = net h x) /\ huniq (fst (dstate h)).
 Proof.
   induction h as [|[r v] h [C U]] using rev_ind; [split; [reflexivity | exact I]|].
-  rewrite dstate_snoc. unfold dacc. simpl.
-  pose proof (tcount_dist_step (fst (dstate h)) r v) as T. pose proof (dist_step_uniq (fst (dstate h)) r v U) as U'.
-  destruct (dist_step (fst (dstate h)) r v) as [m' fw]. simpl in *. split; [|exact U'].
+  rewrite dstate_snoc. unfold dacc, dist_step. simpl.
+  pose proof (tcount_dist_upd true (fst (dstate h)) r v) as T. pose proof (dist_upd_uniq true (fst (dstate h)) r v U) as U'.
+  destruct (dist_upd true (fst (dstate h)) r v) as [m' fw]. simpl in *. split; [|exact U'].
   intro x. rewrite T, C, net_app. simpl. lia.
 Qed.
 
-Lemma valid_prefix a b : valid_hist (a ++ b) -> valid_hist a.
-Proof. intros V p s E. apply (V p (s ++ b)). rewrite E, app_assoc. reflexivity. Qed.
-
-(* what is forwarded has, in every class, multiplicity 1 if the class is present and 0 otherwise *)
-Lemma dhist_net h : valid_hist h -> forall x, net (dhist h) x = supp (net h x).
+(* For EVERY history — retractions may precede the additions they cancel — what is forwarded has, in every
+   class, multiplicity 1 if the class is present (net > 0) and 0 otherwise. *)
+Lemma dhist_net h : forall x, net (dhist h) x = supp (net h x).
 Proof.
-  unfold dhist. induction h as [|[r v] h IH] using rev_ind; intros V x; [reflexivity|].
-  pose proof (valid_prefix _ _ V) as Vh. specialize (IH Vh).
-  pose proof (valid_net_nonneg _ v V) as N1. pose proof (valid_net_nonneg _ v Vh) as N0.
-  rewrite net_app in N1. simpl in N1. rewrite veq_refl in N1.
+  unfold dhist. induction h as [|[r v] h IH] using rev_ind; intro x; [reflexivity|].
   destruct (dstate_inv h) as [C U].
-  rewrite dstate_snoc. unfold dacc. cbn [fst snd]. unfold dist_step. fold (getd (fst (dstate h)) v).
-  rewrite (getd_tcount _ v U), C.
-  rewrite (net_app h). simpl net at 2.
+  rewrite dstate_snoc. unfold dacc, dist_step. cbn [fst snd].
+  pose proof (dist_upd_fw (fst (dstate h)) r v U) as FW.
+  destruct (dist_upd true (fst (dstate h)) r v) as [m' fw]. cbn [fst snd] in *. subst fw.
+  rewrite C, (net_app h). cbn [net]. rewrite Z.add_0_r.
   assert (K : veq v x = true -> net h x = net h v) by (intro E; symmetry; apply net_cong; exact E).
-  unfold supp in *.
-  destruct (Z.eqb_spec (net h v + delta r) 1) as [E1|E1]; destruct r; simpl negb; simpl andb; cbv iota; simpl delta in *.
-  - destruct (Z.eqb_spec (net h v + -1) 0); [lia|]. simpl. rewrite app_nil_r, IH.
-    destruct (veq v x) eqn:E; [rewrite (K eq_refl)|];
-      repeat match goal with |- context [0 <? ?a] => destruct (Z.ltb_spec 0 a) end; lia.
-  - simpl. rewrite net_app, IH. simpl. destruct (veq v x) eqn:E; [rewrite (K eq_refl)|];
-      repeat match goal with |- context [0 <? ?a] => destruct (Z.ltb_spec 0 a) end; lia.
-  - destruct (Z.eqb_spec (net h v + -1) 0); simpl.
+  unfold fw_spec, supp in *.
+  destruct r; simpl negb; simpl delta; rewrite ?andb_false_r, ?andb_true_r.
+  - destruct (Z.eqb_spec (net h v + -1) 0); cbn [andb].
     + rewrite net_app, IH. simpl. destruct (veq v x) eqn:E; [rewrite (K eq_refl)|];
         repeat match goal with |- context [0 <? ?a] => destruct (Z.ltb_spec 0 a) end; lia.
     + rewrite app_nil_r, IH. destruct (veq v x) eqn:E; [rewrite (K eq_refl)|];
         repeat match goal with |- context [0 <? ?a] => destruct (Z.ltb_spec 0 a) end; lia.
-  - destruct (Z.eqb_spec (net h v + 1) 0); [lia|]. simpl. rewrite app_nil_r, IH.
-    destruct (veq v x) eqn:E; [rewrite (K eq_refl)|];
-      repeat match goal with |- context [0 <? ?a] => destruct (Z.ltb_spec 0 a) end; lia.
-Qed.
-
-Lemma snoc_split {A} (p s a : list A) (x : A) :
-  p ++ s = a ++ [x] -> (s = [] /\ p = a ++ [x]) \/ (exists s', s = s' ++ [x] /\ p ++ s' = a).
-Proof.
-  destruct s as [|y s' _] using rev_ind; intro E.
-  - left. rewrite app_nil_r in E. auto.
-  - right. rewrite app_assoc in E. apply app_inj_tail in E. destruct E as [E1 E2]. subst. exists s'. auto.
-Qed.
-
-Lemma dhist_snoc h e : exists fw, dhist (h ++ [e]) = dhist h ++ fw /\ (fw = [] \/ exists x, fw = [x]).
-Proof.
-  unfold dhist. rewrite dstate_snoc. unfold dacc. destruct (dist_step _ _ _) as [m' [x|]]; simpl.
-  - exists [x]. split; [reflexivity | right; exists x; reflexivity].
-  - exists []. split; [reflexivity | left; reflexivity].
+  - destruct (Z.eqb_spec (net h v + 1) 1).
+    + rewrite net_app, IH. simpl. destruct (veq v x) eqn:E; [rewrite (K eq_refl)|];
+        repeat match goal with |- context [0 <? ?a] => destruct (Z.ltb_spec 0 a) end; lia.
+    + rewrite app_nil_r, IH. destruct (veq v x) eqn:E; [rewrite (K eq_refl)|];
+        repeat match goal with |- context [0 <? ?a] => destruct (Z.ltb_spec 0 a) end; lia.
 Qed.
 
 Lemma supp_nonneg n : 0 <= supp n.
 Proof. unfold supp. destruct (0 <? n); lia. Qed.
-
-Lemma dhist_valid h : valid_hist h -> valid_hist (dhist h).
-Proof.
-  induction h as [|e h IH] using rev_ind; intro V.
-  - intros p s E. destruct p; [intro; simpl; lia | discriminate].
-  - pose proof (valid_prefix _ _ V) as Vh. specialize (IH Vh).
-    destruct (dhist_snoc h e) as [fw [E [->|[x ->]]]].
-    + rewrite app_nil_r in E. rewrite E. exact IH.
-    + intros p s Eps. rewrite E in Eps. symmetry in Eps. destruct (snoc_split _ _ _ _ Eps) as [[_ ->]|[s' [_ Ep]]].
-      * intro v. rewrite <- E, (dhist_net _ V). apply supp_nonneg.
-      * apply (IH p s'). symmetry. exact Ep.
-Qed.
 
 (* the generic wrapper theorem *)
 Theorem distinct_correct W spec :
   agg_correct W spec ->
   agg_correct (Distinct W) (fun l o => forall l', support_of l' l -> spec l' o).
 Proof.
-  intros C h l V R NE l' SUP. rewrite run_distinct. simpl.
-  apply C; [apply dhist_valid; exact V | |].
-  - intro v. rewrite (dhist_net h V), (SUP v), (R v). reflexivity.
+  intros C h l R NE l' SUP. rewrite run_distinct. simpl.
+  apply C.
+  - intro v. rewrite (dhist_net h v), (SUP v), (R v). reflexivity.
   - destruct l as [|x l0]; [congruence|]. intro E. subst l'.
     specialize (SUP x). pose proof (ccount_in (x :: l0) x (or_introl eq_refl)) as P.
     destruct (Z.ltb_spec 0 (ccount (x :: l0) x)); simpl in SUP; lia.
@@ -725,7 +692,7 @@ Proof.
 Qed.
 
 
-(* ---- the executable net multiset ---- *)
+(* ---- the executable net multiset: members present and retractions still owed ---- *)
 Lemma remove_class_count l x l1 : remove_class l x = Some l1 ->
   forall v, ccount l1 v = ccount l v - (if veq x v then 1 else 0).
 Proof.
@@ -746,64 +713,76 @@ Proof.
   destruct (veq y x); [inversion H; subst; simpl; lia|].
   destruct (remove_class ys x) as [ys'|]; [|discriminate]. inversion H; subst. specialize (IH ys' eq_refl). simpl. lia.
 Qed.
-
-Lemma valid_snoc h e : valid_hist h -> (forall v, 0 <= net (h ++ [e]) v) -> valid_hist (h ++ [e]).
+Lemma remove_class_incl l x l1 : remove_class l x = Some l1 -> forall y, In y l1 -> In y l.
 Proof.
-  intros V N p s E. symmetry in E. destruct (snoc_split _ _ _ _ E) as [[_ ->]|[s' [_ Ep]]]; [exact N|].
-  apply (V p s'). symmetry. exact Ep.
-Qed.
-Lemma valid_nil : valid_hist [].
-Proof. intros p s E. destruct p; [intro; simpl; lia | discriminate]. Qed.
-
-Lemma netl_step_spec l0 h0 e l1 : represents l0 h0 -> valid_hist h0 -> netl_step l0 e = Some l1 ->
-  represents l1 (h0 ++ [e]) /\ valid_hist (h0 ++ [e]) /\ (length l1 <= S (length l0))%nat.
-Proof.
-  intros R V H. destruct e as [r x]. unfold netl_step in H. simpl in H.
-  assert (R1 : represents l1 (h0 ++ [(r, x)])).
-  { intro v. rewrite net_app. simpl. destruct r.
-    - rewrite (remove_class_count _ _ _ H v), (R v). simpl. destruct (veq x v); lia.
-    - inversion H; subst. rewrite ccount_app, (R v). simpl. destruct (veq x v); lia. }
-  split; [exact R1|]. split.
-  - apply valid_snoc; [exact V|]. intro v. rewrite <- (R1 v). apply ccount_nonneg.
-  - destruct r; [pose proof (remove_class_length _ _ _ H); lia|]. inversion H; subst. rewrite app_length. simpl. lia.
+  revert l1. induction l as [|z zs IH]; intros l1 H y I; simpl in H; [discriminate|].
+  destruct (veq z x); [inversion H; subst; right; exact I|].
+  destruct (remove_class zs x) as [zs'|]; [|discriminate]. inversion H; subst.
+  destruct I as [->|I]; [left; reflexivity | right; apply (IH zs' eq_refl); exact I].
 Qed.
 
-Lemma netl_from_spec h : forall l0 h0 l, represents l0 h0 -> valid_hist h0 -> netl_from l0 h = Some l ->
-  represents l (h0 ++ h) /\ valid_hist (h0 ++ h).
+Definition signed_rep (s : list value * list value) (h : hist) : Prop :=
+  forall v, ccount (fst s) v - ccount (snd s) v = net h v.
+
+Lemma netl_step_rep s h e : signed_rep s h -> signed_rep (netl_step s e) (h ++ [e]).
 Proof.
-  induction h as [|e t IH]; intros l0 h0 l R V H; simpl in H.
-  - inversion H; subst. rewrite app_nil_r. auto.
-  - destruct (netl_step l0 e) as [l1|] eqn:S; [|discriminate].
-    destruct (netl_step_spec _ _ _ _ R V S) as [R1 [V1 _]].
-    replace (h0 ++ e :: t) with ((h0 ++ [e]) ++ t) by (rewrite <- app_assoc; reflexivity).
-    apply (IH l1); assumption.
+  destruct s as [l d], e as [r x]. unfold signed_rep, netl_step. cbn [fst snd]. intros R v.
+  rewrite net_app. cbn [net]. specialize (R v). destruct r; cbn [delta].
+  - destruct (remove_class l x) as [l'|] eqn:E; cbn [fst snd].
+    + rewrite (remove_class_count _ _ _ E v). destruct (veq x v); lia.
+    + rewrite ccount_app. simpl. destruct (veq x v); lia.
+  - destruct (remove_class d x) as [d'|] eqn:E; cbn [fst snd].
+    + rewrite (remove_class_count _ _ _ E v). destruct (veq x v); lia.
+    + rewrite ccount_app. simpl. destruct (veq x v); lia.
+Qed.
+Lemma netl_snoc h e : netl (h ++ [e]) = netl_step (netl h) e.
+Proof. unfold netl. rewrite fold_left_app. reflexivity. Qed.
+Lemma netl_rep h : signed_rep (netl h) h.
+Proof.
+  induction h as [|e h IH] using rev_ind; [intro v; reflexivity|]. rewrite netl_snoc. apply netl_step_rep. exact IH.
 Qed.
 
-(* soundness of the executable guard: it yields a list representing the net multiset of a valid history *)
-Theorem netl_sound h l : netl h = Some l -> valid_hist h /\ represents l h.
+(* soundness of the executable guard: nothing owed -> the list represents the net multiset *)
+Theorem netl_sound h l : netl h = (l, []) -> represents l h.
+Proof. intros E v. pose proof (netl_rep h v) as R. rewrite E in R. simpl in R. lia. Qed.
+
+(* a class is never both present and owed *)
+Definition disjoint_state (s : list value * list value) : Prop := Forall (fun y => ccount (fst s) y = 0) (snd s).
+Lemma netl_step_disjoint s e : disjoint_state s -> disjoint_state (netl_step s e).
 Proof.
-  intro H. destruct (netl_from_spec h [] [] l (fun _ => eq_refl) valid_nil H) as [R V]. auto.
+  destruct s as [l d], e as [r x]. unfold disjoint_state, netl_step. cbn [fst snd]. intro D. destruct r.
+  - destruct (remove_class l x) as [l'|] eqn:E; cbn [fst snd].
+    + eapply Forall_impl; [|exact D]. intros y Hy. pose proof (remove_class_count _ _ _ E y). pose proof (ccount_nonneg l' y).
+      cbn beta in *. destruct (veq x y); lia.
+    + apply Forall_app. split; [exact D|]. constructor; [apply remove_class_none; exact E | constructor].
+  - destruct (remove_class d x) as [d'|] eqn:E; cbn [fst snd].
+    + rewrite Forall_forall in *. intros y Hy. apply D. apply (remove_class_incl _ _ _ E). exact Hy.
+    + rewrite Forall_forall in *. intros y Hy. rewrite ccount_app, (D y Hy). simpl.
+      destruct (veq x y) eqn:V; [|reflexivity].
+      pose proof (remove_class_none _ _ E) as Z. rewrite (ccount_cong d x y V) in Z. pose proof (ccount_in d y Hy). lia.
+Qed.
+Lemma netl_disjoint h : disjoint_state (netl h).
+Proof. induction h as [|e h IH] using rev_ind; [constructor|]. rewrite netl_snoc. apply netl_step_disjoint. exact IH. Qed.
+
+(* completeness: whenever no class is negative, nothing is owed — the oracle then does look at the value *)
+Theorem netl_complete h : (forall v, 0 <= net h v) -> snd (netl h) = [].
+Proof.
+  intro N. pose proof (netl_rep h) as R. pose proof (netl_disjoint h) as D. unfold signed_rep, disjoint_state in *.
+  destruct (netl h) as [l d]. cbn [fst snd] in *. destruct d as [|y d']; [reflexivity|].
+  inversion D as [|? ? Hy _]; subst. specialize (R y). specialize (N y).
+  pose proof (ccount_in (y :: d') y (or_introl eq_refl)). lia.
 Qed.
 
-Lemma netl_step_complete l0 h0 e : represents l0 h0 -> valid_hist (h0 ++ [e]) -> exists l1, netl_step l0 e = Some l1.
+Lemma netl_step_length s e : (length (fst (netl_step s e)) <= S (length (fst s)))%nat.
 Proof.
-  intros R V. destruct e as [[|] x]; unfold netl_step; simpl; [|eauto].
-  destruct (remove_class l0 x) as [l1|] eqn:E; [eauto|].
-  pose proof (remove_class_none _ _ E) as Z. pose proof (valid_net_nonneg _ x V) as N.
-  rewrite net_app, <- (R x), Z in N. simpl in N. rewrite veq_refl in N. lia.
+  destruct s as [l d], e as [r x]. unfold netl_step. cbn [fst snd]. destruct r.
+  - destruct (remove_class l x) as [l'|] eqn:E; cbn [fst]; [pose proof (remove_class_length _ _ _ E)|]; lia.
+  - destruct (remove_class d x); cbn [fst]; [lia|]. rewrite app_length. simpl. lia.
 Qed.
-
-(* completeness: every valid history has one *)
-Theorem netl_complete h : valid_hist h -> exists l, netl h = Some l.
+Lemma netl_length h : (length (fst (netl h)) <= length h)%nat.
 Proof.
-  unfold netl. assert (G : forall l0 h0, represents l0 h0 -> valid_hist (h0 ++ h) -> exists l, netl_from l0 h = Some l).
-  { induction h as [|e t IH]; intros l0 h0 R V; simpl; [eauto|].
-    replace (h0 ++ e :: t) with ((h0 ++ [e]) ++ t) in V by (rewrite <- app_assoc; reflexivity).
-    pose proof (valid_prefix _ _ V) as V1.
-    destruct (netl_step_complete l0 h0 e R V1) as [l1 S]. rewrite S.
-    destruct (netl_step_spec _ _ _ _ R (valid_prefix _ _ V1) S) as [R1 _].
-    apply (IH l1 (h0 ++ [e])); assumption. }
-  intro V. apply (G [] []); [intro; reflexivity | exact V].
+  induction h as [|e h IH] using rev_ind; [simpl; lia|]. rewrite netl_snoc, app_length. simpl.
+  pose proof (netl_step_length (netl h) e). lia.
 Qed.
 
 (* ---- the model meets the executable oracle, for every aggregate of the table without a float sum ---- *)
@@ -812,60 +791,50 @@ Proof. simpl. apply Z.eqb_refl. Qed.
 Lemma outcome_eqb_dur z : outcome_eqb (Ok (VDur z)) (Ok (VDur z)) = true.
 Proof. simpl. apply Z.eqb_refl. Qed.
 
-Lemma filter_len {A} (p : A -> bool) l : (length (filter p l) <= length l)%nat.
-Proof. apply filter_length_le. Qed.
 Lemma vnub_length l : zlen (vnub l) <= zlen l.
 Proof.
   unfold zlen. induction l as [|x t IH]; [simpl; lia|]. simpl vnub. simpl length.
-  pose proof (filter_len (fun y => negb (veq x y)) (vnub t)). lia.
+  pose proof (filter_length_le (fun y => negb (veq x y)) (vnub t)). lia.
 Qed.
 
 Theorem model_meets_oracle k : float_free k = true ->
   agg_correct (agg_of k) (fun l o => zlen l < two63 -> forall n A, scratch_ok k n A l o = true).
 Proof.
   induction k; intro FF; try discriminate; simpl agg_of.
-  - intros h l V R NE _ n A. rewrite (count_correct h l V R NE). apply outcome_eqb_int.
-  - intros h l V R NE _ n A. unfold SumInt. rewrite (sum64_correct int_of VInt int_of_inv h l V R NE). apply outcome_eqb_int.
-  - intros h l V R NE _ n A. unfold SumDur. rewrite (sum64_correct dur_of VDur dur_of_inv h l V R NE). apply outcome_eqb_dur.
-  - intros h l V R NE B n A. unfold AvgInt. rewrite (avg64_correct int_of VInt int_of_inv h l V R NE B). apply outcome_eqb_int.
-  - intros h l V R NE B n A. unfold AvgDur. rewrite (avg64_correct dur_of VDur dur_of_inv h l V R NE B). apply outcome_eqb_dur.
-  - intros h l V R NE _ n A. destruct (min_correct h l V R NE) as [m [-> L]]. exact L.
-  - intros h l V R NE _ n A. destruct (max_correct h l V R NE) as [m [-> L]]. exact L.
-  - intros h l V R NE _ n A. destruct (array_correct h l V R NE) as [e [-> L]]. exact L.
-  - simpl in FF. specialize (IHk FF). intros h l V R NE B n A.
-    pose proof (distinct_correct _ _ IHk h l V R NE (vnub l) (vnub_support l)) as D. simpl in D.
+  - intros h l R NE _ n A. rewrite (count_correct h l R NE). apply outcome_eqb_int.
+  - intros h l R NE _ n A. unfold SumInt. rewrite (sum64_correct int_of VInt int_of_inv h l R NE). apply outcome_eqb_int.
+  - intros h l R NE _ n A. unfold SumDur. rewrite (sum64_correct dur_of VDur dur_of_inv h l R NE). apply outcome_eqb_dur.
+  - intros h l R NE B n A. unfold AvgInt. rewrite (avg64_correct int_of VInt int_of_inv h l R NE B). apply outcome_eqb_int.
+  - intros h l R NE B n A. unfold AvgDur. rewrite (avg64_correct dur_of VDur dur_of_inv h l R NE B). apply outcome_eqb_dur.
+  - intros h l R NE _ n A. destruct (min_correct h l R NE) as [m [-> L]]. exact L.
+  - intros h l R NE _ n A. destruct (max_correct h l R NE) as [m [-> L]]. exact L.
+  - intros h l R NE _ n A. destruct (array_correct h l R NE) as [e [-> L]]. exact L.
+  - simpl in FF. specialize (IHk FF). intros h l R NE B n A.
+    pose proof (distinct_correct _ _ IHk h l R NE (vnub l) (vnub_support l)) as D. simpl in D.
     apply D. pose proof (vnub_length l). lia.
 Qed.
 
-(* run on its own observations, the oracle of the differential check accepts the model: for every valid
-   history, after every Add that leaves a non-empty net multiset *)
-Lemma spec_from_model k : float_free k = true -> forall h h0 l0 n A,
-  represents l0 h0 -> valid_hist (h0 ++ h) -> (length l0 <= length h0)%nat ->
+(* run on its own observations, the oracle of the differential check accepts the model: for EVERY history,
+   after every Add that leaves a net multiset without negative classes and with at least one member *)
+Lemma spec_from_model k : float_free k = true -> forall h h0 n A,
   Z.of_nat (length (h0 ++ h)) < two63 ->
-  spec_from k n A l0 h (obs_from (agg_of k) (run (agg_of k) h0) h) = true.
+  spec_from k n A (netl h0) h (obs_from (agg_of k) (run (agg_of k) h0) h) = true.
 Proof.
-  intros FF h. induction h as [|e t IH]; intros h0 l0 n A R V L B; [reflexivity|].
-  replace (h0 ++ e :: t) with ((h0 ++ [e]) ++ t) in V, B by (rewrite <- app_assoc; reflexivity).
-  pose proof (valid_prefix _ _ V) as V1.
-  destruct (netl_step_complete l0 h0 e R V1) as [l1 S].
-  destruct (netl_step_spec _ _ _ _ R (valid_prefix _ _ V1) S) as [R1 [_ L1]].
-  cbn [obs_from spec_from]. rewrite S. rewrite <- run_snoc.
-  assert (Len : (length l1 <= length (h0 ++ [e]))%nat) by (rewrite app_length; simpl; lia).
-  apply andb_true_intro. split.
-  - destruct l1 as [|x l1']; [reflexivity|].
-    apply (model_meets_oracle k FF (h0 ++ [e]) (x :: l1') V1 R1); [discriminate|].
-    unfold zlen. rewrite app_length in B. lia.
-  - apply IH; assumption.
+  intros FF h. induction h as [|e t IH]; intros h0 n A B; [reflexivity|].
+  replace (h0 ++ e :: t) with ((h0 ++ [e]) ++ t) in B by (rewrite <- app_assoc; reflexivity).
+  cbn [obs_from spec_from]. rewrite <- run_snoc, <- netl_snoc.
+  apply andb_true_intro. split; [|apply IH; exact B].
+  destruct (netl (h0 ++ [e])) as [l d] eqn:E. destruct l as [|x l']; [reflexivity|]. destruct d; [|reflexivity].
+  apply (model_meets_oracle k FF (h0 ++ [e]) (x :: l') (netl_sound _ _ E)); [discriminate|].
+  pose proof (netl_length (h0 ++ [e])) as L. rewrite E in L. cbn [fst] in L.
+  unfold zlen. rewrite !app_length in B. rewrite app_length in L. simpl in *. lia.
 Qed.
 
-Theorem model_passes_c14_spec k h : float_free k = true -> valid_hist h ->
+Theorem model_passes_c14_spec k h : float_free k = true ->
   Z.of_nat (length h) < two63 -> c14_spec (k, h, run_obs (agg_of k) h) = true.
-Proof.
-  intros FF V B. unfold c14_spec, run_obs.
-  apply (spec_from_model k FF h [] [] 0 0); [intro; reflexivity | exact V | simpl; lia | exact B].
-Qed.
+Proof. intros FF B. unfold c14_spec, run_obs. apply (spec_from_model k FF h [] 0 0). exact B. Qed.
 
-(* ---- the pinned tree's float sums: retracting a non-finite value, or overflowing, loses the sum ---- *)
+(* ---- float sums: retracting a non-finite value, or overflowing, loses the sum ---- *)
 Definition fb_one : Z := 4607182418800017408.     (* 1.0 *)
 Definition fb_pinf : Z := 9218868437227405312.    (* +Inf *)
 Definition fb_max : Z := 9218868437227405311.     (* MaxFloat64 *)
@@ -874,67 +843,83 @@ Definition nonfinite_hist : hist := [(false, VFloat fb_pinf); (false, VFloat fb_
 Definition overflow_hist : hist := [(false, VFloat fb_max); (false, VFloat fb_max); (true, VFloat fb_max)].
 
 Lemma float_sum_nonfinite_witness :
-  valid_hist nonfinite_hist /\ represents [VFloat fb_one] nonfinite_hist /\
+  represents [VFloat fb_one] nonfinite_hist /\
   trig SumFloat (run SumFloat nonfinite_hist) = Ok (VFloat f_canon_nan) /\
   trig AvgFloat (run AvgFloat nonfinite_hist) = Ok (VFloat f_canon_nan) /\
   c14_spec (KSumFloat, nonfinite_hist, run_obs SumFloat nonfinite_hist) = false.
 Proof.
-  assert (N : netl nonfinite_hist = Some [VFloat fb_one]) by (vm_compute; reflexivity).
-  destruct (netl_sound _ _ N) as [V R].
-  split; [exact V|]. split; [exact R|]. split; [vm_compute; reflexivity|]. split; vm_compute; reflexivity.
+  split; [apply netl_sound; vm_compute; reflexivity|]. split; [vm_compute; reflexivity|]. split; vm_compute; reflexivity.
 Qed.
 
 Lemma float_sum_overflow_witness :
-  valid_hist overflow_hist /\ represents [VFloat fb_max] overflow_hist /\
+  represents [VFloat fb_max] overflow_hist /\
   forallb (fun e => fl_finite (float_of (snd e))) overflow_hist = true /\
   trig SumFloat (run SumFloat overflow_hist) = Ok (VFloat fb_pinf) /\
   c14_spec (KSumFloat, overflow_hist, run_obs SumFloat overflow_hist) = false.
 Proof.
-  assert (N : netl overflow_hist = Some [VFloat fb_max]) by (vm_compute; reflexivity).
-  destruct (netl_sound _ _ N) as [V R].
-  split; [exact V|]. split; [exact R|]. split; [vm_compute; reflexivity|]. split; vm_compute; reflexivity.
+  split; [apply netl_sound; vm_compute; reflexivity|]. split; [vm_compute; reflexivity|]. split; vm_compute; reflexivity.
+Qed.
+
+(* ---- the code before the fix: Distinct forwarded a retraction when an addition cancelled an early retraction ---- *)
+Definition early_retraction_hist : hist := [(true, VInt 7); (false, VInt 7); (false, VInt 9)].
+Lemma distinct_pinned_witness :
+  represents [VInt 9] early_retraction_hist /\
+  trig (Distinct_pinned Count) (run (Distinct_pinned Count) early_retraction_hist) = Ok (VInt 0) /\
+  trig (Distinct Count) (run (Distinct Count) early_retraction_hist) = Ok (VInt 1) /\
+  c14_spec (KDistinct KCount, early_retraction_hist, run_obs (Distinct_pinned Count) early_retraction_hist) = false.
+Proof.
+  split; [apply netl_sound; vm_compute; reflexivity|]. split; [vm_compute; reflexivity|]. split; vm_compute; reflexivity.
 Qed.
 
 (* ---- the statements in the form Properties/C14.v gives them ---- *)
-Lemma min_correct_prop h l : valid_hist h -> represents l h -> l <> [] ->
+Lemma min_correct_prop h l : represents l h -> l <> [] ->
   exists m, trig Min (run Min h) = Ok m /\
             (exists x, In x l /\ vcompare m x = 0) /\ (forall x, In x l -> vcompare m x <= 0).
 Proof.
-  intros V R NE. destruct (min_correct h l V R NE) as [m [E L]]. exists m. split; [exact E|].
+  intros R NE. destruct (min_correct h l R NE) as [m [E L]]. exists m. split; [exact E|].
   apply is_least_spec. exact L.
 Qed.
-Lemma max_correct_prop h l : valid_hist h -> represents l h -> l <> [] ->
+Lemma max_correct_prop h l : represents l h -> l <> [] ->
   exists m, trig Max (run Max h) = Ok m /\
             (exists x, In x l /\ vcompare m x = 0) /\ (forall x, In x l -> vcompare x m <= 0).
 Proof.
-  intros V R NE. destruct (max_correct h l V R NE) as [m [E L]]. exists m. split; [exact E|].
+  intros R NE. destruct (max_correct h l R NE) as [m [E L]]. exists m. split; [exact E|].
   apply is_greatest_spec. exact L.
 Qed.
-Lemma array_correct_prop h l : valid_hist h -> represents l h -> l <> [] ->
+Lemma array_correct_prop h l : represents l h -> l <> [] ->
   exists e, trig Array (run Array h) = Ok (VList e) /\
             StronglySorted (fun a b => vcompare a b <= 0) e /\ (forall v, ccount e v = ccount l v).
 Proof.
-  intros V R NE. destruct (array_correct h l V R NE) as [e [E L]]. exists e. split; [exact E|].
+  intros R NE. destruct (array_correct h l R NE) as [e [E L]]. exists e. split; [exact E|].
   apply is_sorted_expansion_spec. exact L.
 Qed.
 
 Lemma float_sum_nonfinite_refuted : exists h l,
-  valid_hist h /\ represents l h /\ l = [VFloat fb_one] /\
+  represents l h /\ l = [VFloat fb_one] /\
   trig SumFloat (run SumFloat h) = Ok (VFloat f_canon_nan) /\
   trig AvgFloat (run AvgFloat h) = Ok (VFloat f_canon_nan) /\
   c14_spec (KSumFloat, h, run_obs SumFloat h) = false.
 Proof.
-  exists nonfinite_hist, [VFloat fb_one]. destruct float_sum_nonfinite_witness as [V [R [S [A O]]]].
-  repeat (split; [assumption|]). split; [reflexivity|]. repeat (split; [assumption|]). exact O.
+  exists nonfinite_hist, [VFloat fb_one]. destruct float_sum_nonfinite_witness as [R [S [A O]]].
+  split; [exact R|]. split; [reflexivity|]. split; [exact S|]. split; [exact A | exact O].
 Qed.
 Lemma float_sum_overflow_refuted : exists h l,
-  valid_hist h /\ represents l h /\ l = [VFloat fb_max] /\
+  represents l h /\ l = [VFloat fb_max] /\
   forallb (fun e => fl_finite (float_of (snd e))) h = true /\
   trig SumFloat (run SumFloat h) = Ok (VFloat fb_pinf) /\
   c14_spec (KSumFloat, h, run_obs SumFloat h) = false.
 Proof.
-  exists overflow_hist, [VFloat fb_max]. destruct float_sum_overflow_witness as [V [R [F [S O]]]].
-  repeat (split; [assumption|]). split; [reflexivity|]. repeat (split; [assumption|]). exact O.
+  exists overflow_hist, [VFloat fb_max]. destruct float_sum_overflow_witness as [R [F [S O]]].
+  split; [exact R|]. split; [reflexivity|]. split; [exact F|]. split; [exact S | exact O].
+Qed.
+Lemma distinct_pinned_refuted : exists h l,
+  represents l h /\ l = [VInt 9] /\
+  trig (Distinct_pinned Count) (run (Distinct_pinned Count) h) = Ok (VInt 0) /\
+  trig (Distinct Count) (run (Distinct Count) h) = Ok (VInt 1) /\
+  c14_spec (KDistinct KCount, h, run_obs (Distinct_pinned Count) h) = false.
+Proof.
+  exists early_retraction_hist, [VInt 9]. destruct distinct_pinned_witness as [R [P [F O]]].
+  split; [exact R|]. split; [reflexivity|]. split; [exact P|]. split; [exact F | exact O].
 Qed.
 
 Lemma sum_algorithms_are_one :
